@@ -193,7 +193,8 @@ def run_property(ctx, pid):
     plan = [(4, consts(4, 2, False)), (5, consts(5, 2, False, MaxBroker=1 if quick else 2))]
     if not quick:
         plan = [(4, consts(4, 2, False, MaxBroker=3, ChanCap=2)), (4, consts(4, 3, False, MaxMsgs=4, MaxBroker=2)),
-                (5, consts(5, 2, False, MaxBroker=2, ChanCap=2)), (4, consts(4, 2, True, MaxBroker=3))]
+                (5, consts(5, 2, False, MaxBroker=2, ChanCap=2)), (4, consts(4, 2, True, MaxBroker=3)),
+                (4, consts(4, 2, False, Subs="TRUE"))]        # subscribes share the packet-id space
     for i, (version, c) in enumerate(plan):
         res = model_check(ctx, pid, version, c, workers=8 if quick else 14, tag="_%d" % i)
         states += res.distinct
